@@ -354,6 +354,14 @@ def make_dup_leaf(rng, name, pat, ty):
                  _decl('r', ty, 'inout')]
         body = [[A('assign'), IDX('c', V('k')), BIN('add', IDX('c', V('m')), _one(ty))], _acc(ty, 'r', IDX('c', V('k')))]
         return [A('unit'), A(name), [A('m'), A('k'), A('c'), A('r')], decls, body], pat
+    if pat in ('nested', 'print'):   # (m, k, c, d, r): `d(k)` with both d and k removed / PRINT mentions a removed dummy
+        decls = [_decl('m', 'int', 'in'), _decl('k', 'int', 'in'), _decl('c', ty, 'in', [[ilit(1), V('m')]]),
+                 _decl('d', ty, 'in', [[ilit(1), V('m')]]), _decl('r', ty, 'inout')]
+        if pat == 'nested':
+            body = [_acc(ty, 'r', BIN('add', IDX('c', V('m')), IDX('d', V('k'))))]
+        else:
+            body = [_acc(ty, 'r', BIN('add', IDX('c', V('m')), IDX('d', V('m')))), [A('print'), IDX('d', I(1))]]
+        return [A('unit'), A(name), [A('m'), A('k'), A('c'), A('d'), A('r')], decls, body], 'nested'
     if pat == 'intent':         # kept dummy intent(in) and unreferenced, removed one written: conforming original
         decls = [_decl('c', ty, 'in', [[ilit(1), I(1)]]), _decl('d', ty, 'inout', [[ilit(1), I(1)]]), _decl('r', ty, 'inout')]
         body = [[A('assign'), IDX('d', I(1)), BIN('add', IDX('d', I(1)), _one(ty))], _acc(ty, 'r', IDX('d', I(1)))]
@@ -372,10 +380,10 @@ def add_dup_calls(rng, base, inputs, special=None):
             pats = ['scal', 'scal', 'lit'] + (['arr', 'arr', 'arr3'] if arrs else [])
             pat = rng.choice(pats)
             if special and k == 0:
-                pat = special if (arrs or special in ('scal', 'lit', 'litdecl')) else 'scal'
+                pat = special if arrs else 'scal'
             ty = rng.choice(('int', 'real'))
             name = None
-            if pat in ('arr', 'arr3', 'lit', 'litdecl', 'intent'):
+            if pat in ('arr', 'arr3', 'lit', 'litdecl', 'intent', 'nested', 'print'):
                 if not arrs:
                     pat = 'scal'
                 else:
@@ -398,6 +406,8 @@ def add_dup_calls(rng, base, inputs, special=None):
                 args = [e, loads(dumps(e)), V(r)]
             elif kind in ('lit', 'litdecl'):
                 args = [I(1), I(1), V(name), V(r)]
+            elif kind == 'nested':
+                args = [I(1), I(1), V(name), V(name), V(r)]
             else:
                 args = [V(name), V(name), V(r)]
             call = [A('callsub'), A(leaf)] + args
@@ -634,3 +644,646 @@ def decode(req):
             raise ValueError('malformed request')
         return kind, str(req[1]), req[2], str(req[3])
     raise ValueError('unknown request kind')
+
+
+# ---------------------------------------------------------------- generated Fortran call trees (outside FIR): gfortran oracle
+
+def spec_get(spec, key, default=None):
+    for kv in spec:
+        if str(kv[0]) == key:
+            v = kv[1]
+            try:
+                return int(str(v))
+            except ValueError:
+                return str(v)
+    return default
+
+
+def mk_spec(**kw):
+    return [[A(k), (v if isinstance(v, int) else A(str(v)))] for k, v in sorted(kw.items())]
+
+
+def _dim(lb, ext):
+    """declared dimension with lower bound lb and extent expression ext (a name or a number)"""
+    if lb == 1:
+        return f'{ext}'
+    if str(ext).lstrip('-').isdigit():
+        return f'{lb}:{int(ext) + lb - 1}'
+    off = lb - 1
+    return f'{lb}:{ext}' + (f' + {off}' if off > 0 else f' - {-off}' if off < 0 else '')
+
+
+def render_shape(spec):
+    rank, lb1, lb2 = spec_get(spec, 'rank'), spec_get(spec, 'lb1'), spec_get(spec, 'lb2')
+    cap, pas, nest = spec_get(spec, 'capture'), spec_get(spec, 'pass'), spec_get(spec, 'nest')
+    n, m, k = spec_get(spec, 'n'), spec_get(spec, 'm'), spec_get(spec, 'k')
+    jn = 'n' if cap else 'j'
+    if pas == 'col':
+        actual, crank = f'a(:, {lb2 + 1})', 1
+        adecl = f'a({_dim(lb1, "n")}, {_dim(lb2, "m")})'
+    elif rank == 2:
+        actual, crank = 'a', 2
+        adecl = f'a({_dim(lb1, "n")}, {_dim(lb2, "m")})'
+    else:
+        actual, crank = 'a', 1
+        adecl = f'a({_dim(lb1, "n")})'
+    cd = ':, :' if crank == 2 else ':'
+    e = (lambda i, j=1: f'c({i}, {j})') if crank == 2 else (lambda i, j=1: f'c({i})')
+    nested = ''
+    sub2 = ''
+    if nest:
+        nested = f'    call sub2({"c(:, 1)" if crank == 2 else "c"}, r)\n'
+        sub2 = ('  subroutine sub2(d, r)\n    integer, intent(inout) :: d(:)\n    integer, intent(inout) :: r\n'
+                '    d(2) = d(1) + d(2)\n    r = r + d(2) + size(d)\n  end subroutine sub2\n')
+    mod = f'''module cmod
+  implicit none
+contains
+  subroutine kernel(n, m, a, res)
+    integer, intent(in) :: n, m
+    integer, intent(inout) :: {adecl}
+    integer, intent(out) :: res
+    integer :: k
+    k = {k}
+    call sub1({actual}, k, res)
+  end subroutine kernel
+  subroutine sub1(c, {jn}, r)
+    integer, intent(inout) :: c({cd})
+    integer, intent(in) :: {jn}
+    integer, intent(out) :: r
+    {e(1)} = {e(2)} + {jn}
+    {e(jn, 2)} = 7
+    r = {e(1)} * 10 + size(c, 1)
+{nested}  end subroutine sub1
+{sub2}end module cmod
+'''
+    shape = f'{_dim(lb1, n)}, {_dim(lb2, m)}' if (rank == 2 or pas == 'col') else f'{_dim(lb1, n)}'
+    total = n * m if (rank == 2 or pas == 'col') else n
+    drv = f'''program cmain
+  use cmod
+  implicit none
+  integer :: a({shape}), res, i
+  a = reshape([(3 * i + 1, i = 1, {total})], shape(a))
+  call kernel({n}, {m}, a, res)
+  print *, res
+  print *, a
+end program cmain
+'''
+    return mod, drv
+
+
+def classes_shape(spec):
+    cs = []
+    rank, pas = spec_get(spec, 'rank'), spec_get(spec, 'pass')
+    lbs = [spec_get(spec, 'lb1')] + ([spec_get(spec, 'lb2')] if (rank == 2 and pas != 'col') else [])
+    if any(lb != 1 for lb in lbs):
+        cs.append(K_SH_LB)          # Lean: KnownShapeLb
+    if spec_get(spec, 'capture'):
+        cs.append(K_SH_CAP)         # Lean: KnownShapeCapture
+    return cs
+
+
+def transform_shape(sf):
+    from loki.transformations.argument_shape import ArgumentArrayShapeAnalysis, ExplicitArgumentArrayShapeTransformation
+    mod = sf['cmod']
+    order = [r for r in mod.subroutines]
+    for r in order:
+        r.enrich(order)
+    for r in order:
+        ArgumentArrayShapeAnalysis().transform_subroutine(r, role='kernel')
+    for r in reversed(order):
+        ExplicitArgumentArrayShapeTransformation().transform_subroutine(r, role='kernel')
+
+
+def render_dtype(spec):
+    lbq, lbv, clash, nested = spec_get(spec, 'lbq'), spec_get(spec, 'lbv'), spec_get(spec, 'clash'), spec_get(spec, 'nested')
+    n, s0 = spec_get(spec, 'n'), spec_get(spec, 's')
+    loc = 't_s' if clash else 'w'
+    call2 = '    call sub2(t%in, r)\n' if nested else ''
+    sub2 = ''
+    if nested:
+        sub2 = (f'  subroutine sub2(x, r)\n    type(inner), intent(inout) :: x\n    integer, intent(inout) :: r\n'
+                f'    x%q({lbq + 2}) = x%q({lbq}) + 3\n    x%p%g = x%p%g + 1\n    r = r + x%q({lbq + 2}) + x%p%g\n  end subroutine sub2\n')
+    mod = f'''module cmod
+  implicit none
+  type leaf
+    integer :: g
+  end type leaf
+  type inner
+    integer :: q({lbq}:{lbq + 2})
+    type(leaf) :: p
+  end type inner
+  type outer
+    integer :: s
+    integer, allocatable :: v(:)
+    type(inner) :: in
+  end type outer
+contains
+  subroutine kernel(n, o, res)
+    integer, intent(in) :: n
+    type(outer), intent(inout) :: o
+    integer, intent(out) :: res
+    call sub1(n, o, res)
+    res = res + o%s
+  end subroutine kernel
+  subroutine sub1(n, t, r)
+    integer, intent(in) :: n
+    type(outer), intent(inout) :: t
+    integer, intent(out) :: r
+    integer :: {loc}
+    {loc} = 5
+    t%v({lbv}) = t%v({lbv} + n - 1) + t%s + {loc}
+    t%in%q({lbq}) = t%in%q({lbq + 1}) + 1
+    t%s = t%s + 1
+    r = t%in%q({lbq}) + t%v({lbv})
+{call2}  end subroutine sub1
+{sub2}end module cmod
+'''
+    drv = f'''program cmain
+  use cmod
+  implicit none
+  type(outer) :: o
+  integer :: res, i
+  allocate(o%v({lbv}:{lbv + n - 1}))
+  do i = {lbv}, {lbv + n - 1}
+    o%v(i) = 2 * i + 3
+  end do
+  o%s = {s0}
+  o%in%q = [4, 5, 6]
+  o%in%p%g = 8
+  call kernel({n}, o, res)
+  print *, res, o%s, o%in%p%g
+  print *, o%v
+  print *, o%in%q
+end program cmain
+'''
+    return mod, drv
+
+
+def classes_dtype(spec):
+    cs = []
+    if spec_get(spec, 'lbq') != 1 or spec_get(spec, 'lbv') != 1:
+        cs.append(K_DT_LB)          # Lean: KnownDtLb
+    if spec_get(spec, 'clash'):
+        cs.append(K_DT_CLASH)       # Lean: KnownDtClash
+    return cs
+
+
+def transform_dtype(sf, spec):
+    from loki.tools import CaseInsensitiveDict
+    from loki.transformations.transform_derived_types import DerivedTypeArgumentsTransformation
+    mod = sf['cmod']
+    rs = list(mod.subroutines)
+    for r in rs:
+        r.enrich(rs)
+    T = DerivedTypeArgumentsTransformation(all_derived_types=bool(spec_get(spec, 'alld')))
+    data = CaseInsensitiveDict()
+    for name in ('sub2', 'sub1'):           # callees before callers (reverse traversal of the scheduler)
+        if name in [r.name for r in rs]:
+            r = mod[name]
+            T.expand_derived_args_caller(r, data)
+            data[name] = T.expand_derived_args_kernel(r)
+    T.expand_derived_args_caller(mod['kernel'], data)       # role driver: calls only
+
+
+def render_tbound(spec):
+    bind, kk = spec_get(spec, 'bind'), spec_get(spec, 'kk')
+    if bind == 'first':
+        decl, sig, body = 'procedure :: bump => outer_bump', '(this, k)', 'this%s = this%s + k'
+        kdecl = 'class(outer), intent(inout) :: this\n    integer, intent(in) :: k'
+    elif bind == 'pass2':
+        decl, sig, body = 'procedure, pass(this) :: bump => outer_bump', '(k, this)', 'this%s = this%s + 2 * k'
+        kdecl = 'integer, intent(in) :: k\n    class(outer), intent(inout) :: this'
+    else:
+        decl, sig, body = 'procedure, nopass :: bump => outer_bump', '(k)', 'k = k + 1'
+        kdecl = 'integer, intent(inout) :: k'
+    mod = f'''module cmod
+  implicit none
+  type outer
+    integer :: s
+  contains
+    {decl}
+  end type outer
+contains
+  subroutine outer_bump{sig}
+    {kdecl}
+    {body}
+  end subroutine outer_bump
+  subroutine kernel(o, kk, res)
+    type(outer), intent(inout) :: o
+    integer, intent(inout) :: kk
+    integer, intent(out) :: res
+    call o%bump(kk)
+    res = o%s + kk
+  end subroutine kernel
+end module cmod
+'''
+    drv = f'''program cmain
+  use cmod
+  implicit none
+  type(outer) :: o
+  integer :: res, kk
+  o%s = 10
+  kk = {kk}
+  call kernel(o, kk, res)
+  print *, res, o%s, kk
+end program cmain
+'''
+    return mod, drv
+
+
+def classes_tbound(spec):
+    b = spec_get(spec, 'bind')
+    return [K_TB_PASS] if b == 'pass2' else [K_TB_NOPASS] if b == 'nopass' else []     # Lean: KnownTbPass / KnownTbNopass
+
+
+def transform_tbound(sf):
+    from loki.transformations.transform_derived_types import TypeboundProcedureCallTransformation
+    mod = sf['cmod']
+    for r in mod.subroutines:
+        TypeboundProcedureCallTransformation().transform_subroutine(r, role='kernel')
+
+
+def render_seqkw(spec):
+    kw, i, cnt = spec_get(spec, 'kw'), spec_get(spec, 'i'), spec_get(spec, 'cnt')
+    call = f'call sub1(m={cnt}, c=a({i}, 2))' if kw else f'call sub1({cnt}, a({i}, 2))'
+    mod = f'''module cmod
+  implicit none
+contains
+  subroutine kernel(n, a)
+    integer, intent(in) :: n
+    integer, intent(inout) :: a(n, 3)
+    {call}
+  end subroutine kernel
+  subroutine sub1(m, c)
+    integer, intent(in) :: m
+    integer, intent(inout) :: c(m)
+    integer :: i
+    do i = 1, m
+      c(i) = c(i) + i
+    end do
+  end subroutine sub1
+end module cmod
+'''
+    drv = '''program cmain
+  use cmod
+  implicit none
+  integer :: a(4, 3), i
+  a = reshape([(i, i = 1, 12)], shape(a))
+  call kernel(4, a)
+  print *, a
+end program cmain
+'''
+    return mod, drv
+
+
+def classes_seqkw(spec):
+    return [K_SEQ_KW] if spec_get(spec, 'kw') else []      # Lean: KnownSeqKw
+
+
+def transform_seqkw(sf):
+    from loki.transformations.sanitise.sequence_associations import do_resolve_sequence_association
+    mod = sf['cmod']
+    rs = list(mod.subroutines)
+    for r in rs:
+        r.enrich(rs)
+    for r in rs:
+        do_resolve_sequence_association(r)
+
+
+SRC_KINDS = {
+    'shape': (render_shape, classes_shape, lambda sf, spec: transform_shape(sf)),
+    'dtype': (render_dtype, classes_dtype, transform_dtype),
+    'tbound': (render_tbound, classes_tbound, lambda sf, spec: transform_tbound(sf)),
+    'seqkw': (render_seqkw, classes_seqkw, lambda sf, spec: transform_seqkw(sf)),
+}
+
+
+def gf_run(text, timeout=60):
+    """compile and run one complete Fortran source with gfortran -> ('ok', stdout) | ('compile-error', msg) | ('run-error', msg)"""
+    d = tempfile.mkdtemp(prefix='c34_')
+    try:
+        with open(os.path.join(d, 'p.f90'), 'w') as fh:
+            fh.write(text)
+        flags = [f for f in fir.GFORTRAN_FLAGS if f != '-fdefault-real-8'] if isinstance(fir.GFORTRAN_FLAGS, (list, tuple)) \
+            else fir.GFORTRAN_FLAGS.split()
+        p = subprocess.run(['gfortran'] + list(flags) + ['-o', 'p.x', 'p.f90'], cwd=d, capture_output=True, text=True, timeout=timeout)
+        if p.returncode != 0:
+            err = [l for l in p.stderr.splitlines() if 'Error' in l or 'error' in l]
+            return ('compile-error', (err[0] if err else p.stderr[-200:]).strip()[:200])
+        try:
+            q = subprocess.run(['./p.x'], cwd=d, capture_output=True, text=True, timeout=timeout)
+        except subprocess.TimeoutExpired:
+            return ('run-error', 'timeout')
+        if q.returncode != 0:
+            err = [l for l in q.stderr.splitlines() if l.strip()]
+            return ('run-error', (err[0] if err else f'rc={q.returncode}')[:200])
+        return ('ok', ' '.join(q.stdout.split()))
+    finally:
+        shutil.rmtree(d, ignore_errors=True)
+
+
+def real_src(kind, spec):
+    """(module text, driver text, transformed module text printed by Loki's fgen)"""
+    from loki import Sourcefile, fgen
+    from loki.frontend import FP
+    render, _, transform = SRC_KINDS[kind]
+    mod, drv = render(spec)
+    sf = Sourcefile.from_source(mod, frontend=FP)
+    try:
+        transform(sf, spec)
+        text = fgen(sf.ir)
+    except Exception as e:
+        raise TransformError(f'{type(e).__name__}: {str(e)[:160]}') from e
+    return mod, drv, text
+
+
+K_DD_LEFT = 'dedup-removed-name-left-behind'      # KnownDedupLeft (replaces the narrower declaration-only class)
+K_DD_MULTI = 'dedup-second-caller-misaligned'     # KnownDedupMulti
+ALL_CLASSES = [K_SEQ_RANK, K_SEQ_SHORT, K_SEQ_KW, K_DD_MULTI, K_DD_LEFT, K_DD_INTENT, K_SH_LB, K_SH_CAP, K_DT_LB, K_DT_CLASH,
+               K_TB_PASS, K_TB_NOPASS]
+
+
+def _partition(gs):
+    return tuple(sorted(tuple(ds) for _, ds in gs if len(ds) >= 2))
+
+
+def known_dedup_multi(prog):
+    """Lean: KnownDedupMulti — some callee receives duplicated actuals in calls from two different units"""
+    um = unit_map(prog)
+    for gname, g in um.items():
+        callers = 0
+        for u in units(prog):
+            if any(str(c[1]) == gname and _partition(group_args(g[2], c[2:])) for c in all_calls(u[4])):
+                callers += 1
+        if callers >= 2:
+            return True
+    return False
+
+
+def dedup_precondition_ok(prog):
+    """the documented restriction: all calls to one routine duplicate the same arguments"""
+    um = unit_map(prog)
+    for gname, g in um.items():
+        parts = set()
+        for u in units(prog):
+            for c in all_calls(u[4]):
+                if str(c[1]) == gname:
+                    parts.add(_partition(group_args(g[2], c[2:])) if len(c) - 2 == len(g[2]) else ('arity',))
+        if len(parts) > 1:
+            return False
+    return True
+
+
+def add_second_caller(rng, prog):
+    """a second unit calling the first duplicated-argument leaf with the same duplication (class dedup-second-caller-misaligned)"""
+    prog = loads(dumps(prog))
+    um = unit_map(prog)
+    if 'dup1' not in um:
+        return prog
+    g = um['dup1']
+    if [str(a) for a in g[2]] != ['y', 'z', 'r']:
+        return prog
+    ty = str(decl_of(g, 'y')[2])
+    mid = [A('unit'), A('mid1'), [A('s'), A('r')], [_decl('s', ty, 'in'), _decl('r', ty, 'inout')],
+           [[A('callsub'), A('dup1'), V('s'), V('s'), V('r')]]]
+    u = prog[2]
+    _ensure_decl(u, 't97', ty)
+    zero = I(0) if ty == 'int' else fir.rlit(Fraction(0))
+    two = I(2) if ty == 'int' else fir.rlit(Fraction(5, 2))
+    u[4] = list(u[4]) + [[A('assign'), V('t97'), zero], [A('callsub'), A('mid1'), two, V('t97')], [A('print'), V('t97')]]
+    return fir.canon(prog[:3] + [mid] + prog[3:])
+
+
+GEN_CFG = dict(max_stmts=10, max_depth=2, n_callees=(0, 2), n_arrays=(1, 3), weights=dict(call=14))
+
+
+def gen_src(rng):
+    kind = rng.choice(['shape', 'shape', 'dtype', 'dtype', 'tbound', 'seqkw'])
+    if kind == 'shape':
+        spec = mk_spec(rank=rng.choice((1, 2)), lb1=rng.choice((1, 1, 1, 0, -1)), lb2=rng.choice((1, 1, 1, 0)),
+                       capture=int(rng.random() < 0.2), **{'pass': rng.choice(('whole', 'whole', 'col'))},
+                       nest=int(rng.random() < 0.4), n=rng.randint(3, 5), m=rng.randint(2, 4), k=rng.randint(1, 2))
+    elif kind == 'dtype':
+        spec = mk_spec(lbq=rng.choice((1, 1, 1, 0)), lbv=rng.choice((1, 1, 1, 0, 2)), clash=int(rng.random() < 0.2),
+                       nested=int(rng.random() < 0.5), alld=int(rng.random() < 0.5), n=rng.randint(2, 4), s=rng.randint(-3, 5))
+    elif kind == 'tbound':
+        spec = mk_spec(bind=rng.choice(('first', 'first', 'first', 'pass2', 'nopass')), kk=rng.randint(1, 5))
+    else:
+        i = rng.randint(1, 4)
+        spec = mk_spec(kw=int(rng.random() < 0.3), i=i, cnt=rng.randint(1, 5 - i))
+    return kind, spec
+
+
+_SRC_FUT = {}
+_POOL = []
+
+
+def prefetch_src(prop, reqs):
+    """start the gfortran oracle of `src` requests on a thread pool (compilations dominate and run outside the GIL); purely a
+    cache: `oracle_src` recomputes whatever is not there"""
+    from concurrent.futures import ThreadPoolExecutor
+    if not _POOL:
+        _POOL.append(ThreadPoolExecutor(max_workers=min(8, os.cpu_count() or 2)))
+    for req in reqs:
+        try:
+            kind, name, spec, flag = decode(req)
+        except Exception:
+            continue
+        if kind != 'src':
+            continue
+        key = name + ' ' + dumps(spec)
+        if key not in _SRC_FUT:
+            _SRC_FUT[key] = _POOL[0].submit(prop._oracle_src, name, spec)
+
+
+def known_src_witnesses():
+    """witness requests of the listed findings of this property (replayed by the runner at the end of every run)"""
+    import json
+    from pathlib import Path
+    from ..core import VERIF
+    f = Path(os.environ.get('VERIF_KNOWN', str(VERIF / 'known_findings.json')))
+    out = []
+    try:
+        for k in json.loads(f.read_text())['findings']:
+            if k.get('property') == 'C34' and k.get('status', 'open') == 'open' and k.get('witness', '').startswith('(src '):
+                out.append(loads(k['witness']))
+    except Exception:
+        pass
+    return out
+
+
+class C34(Prop):
+    id = 'C34'
+    title = 'Call-signature rewrites preserve behaviour'
+    model_modules = ['LokiModel.C34.Model', 'LokiModel.C34.Enc']
+    props_module = 'LokiModel.Props.C34'
+    findings_module = 'LokiModel.Findings.C34'
+    driver = 'Drivers/C34.lean'
+    theorems = ['seq_model_rank1', 'seqassoc_copyin_sound', 'seqassoc_copyout_sound', 'dedup_sound_partial',
+                'dedup_entry_merged', 'expand_consistent']
+    design_ref = 'DESIGN.md 4.F C34'
+    level = 'proof'
+    level_text = ('Sequence association: seq_model_rank1 + seqassoc_copyin_sound + seqassoc_copyout_sound (full, unbounded: for an '
+                  'element actual bound to a RANK-1 dummy, any array rank, the section written by the model denotes — through the '
+                  'interpreter\'s own section functions — exactly the storage sequence FIR\'s call copies in/out, so every dummy not '
+                  'longer than the section is filled and written back identically; stated on the copied data because FIR\'s callSub '
+                  'has no section actuals). Dummies of rank >= 2: model + correspondence + oracle only. Duplicate arguments: '
+                  'dedup_sound_partial (expression level: every completely renamed expression evaluates in the merged callee state '
+                  'like the original in the original state) + dedup_entry_merged; the lifting to statement execution and copy-out is '
+                  'not proved (oracle). expand_consistent: abstract record flattening (zip of expansions = expansion of zips). '
+                  'Explicit shapes, derived-type expansion, type-bound calls, keyword calls: oracle only (gfortran).')
+    level_note = ('FIR call semantics (Sem.lean) = copy-in/copy-out in dummy order; the meaning of a section actual is defined in '
+                  'LokiModel/C34/Seq.lean (elements in array element order, copy through them) and mirrored by SecInterp in the '
+                  'harness. The hypothesis `hfit` of the sequence-association theorems (the array cell holds its first-dimension '
+                  'column) is a well-formedness property of cells made by declCell, not proved here.')
+    technique = ('Lean 4 theorems about hand-written models of do_resolve_sequence_association and remove_duplicate_args_from_calls '
+                 'on FIR programs + correspondence with the real code + original-vs-transformed execution oracle (Python FIR '
+                 'interpreter; gfortran in the thorough tier and for the generated call trees outside FIR)')
+    rule = ('generated FIR programs (calls weighted up) extended by 1-3 calls passing an array ELEMENT to an array dummy of generated '
+            'leaf callees (rank 1 or 2, start anywhere in the array, count literal or symbolic, plain / inside IF / inside DO), resp. by '
+            '1-2 calls passing the same actual (array, scalar, expression, literal) two or three times to leaf callees, incl. repeated '
+            'calls, a second calling unit, removed names used in bounds / subscripts / PRINT, kept INTENT(IN) dummy; 2 input sets '
+            'each; plus generated Fortran modules (assumed-shape call trees with lower bounds / symbol capture / column sections / '
+            'nesting; derived types with static, allocatable and nested members, local-name clashes; type-bound calls with '
+            'pass/nopass; keyword calls) compiled and run by gfortran before and after the real transformation. '
+            'non-trivial = the transformation changes the program')
+    trusted_base = ['harness/fir.py (printer, exporter from Loki IR, reference interpreter)', 'gfortran 12.2']
+    assumptions = ['all calls to one routine duplicate the same arguments (documented restriction of RemoveDuplicateArgs); '
+                   'aliased dummies are not written unless the other members of the group are unreferenced (Fortran aliasing rule)',
+                   'array bounds mentioned in a resolved section still hold the value they had at entry (dimension variables are not '
+                   'modified)']
+    extra_obligations = ['oracle: original vs really resolved sequence association (interpreter / gfortran)',
+                         'oracle: original vs really de-duplicated calls and callees (interpreter / gfortran)',
+                         'oracle: generated assumed-shape / derived-type / type-bound / keyword call trees, gfortran before vs after']
+
+    def classes(self):
+        return list(ALL_CLASSES)
+
+    # ---- generation
+    def gen(self, rng, tier):
+        n = {'quick': 12, 'thorough': 150, 'search': 60}.get(tier, 12)
+        for j in range(n):
+            base = fir.gen_program(rng, GEN_CFG)
+            inputs = fir.gen_inputs(rng, base, 2)
+            gf = A('gf' if (tier == 'thorough' and j % 3 == 0) else 'nogf')
+            prog, k = add_seq_calls(rng, base, inputs)
+            yield Case([A('seq'), prog, inputs, gf], stream='seq', nontrivial=bool(seq_sites(prog)))
+            special = rng.choice([None, None, None, None, 'litdecl', 'intent', 'nested', 'print'])
+            prog, k = add_dup_calls(rng, base, inputs, special=special)
+            if k and rng.random() < 0.12:
+                prog = add_second_caller(rng, prog)
+            yield Case([A('dedup'), prog, inputs, gf], stream='dedup', nontrivial=has_dups(prog))
+        n_src = {'quick': 6, 'thorough': 120, 'search': 40}.get(tier, 6)
+        srcs = [gen_src(rng) for j in range(n_src)]
+        cases = [Case([A('src'), A(kind), spec, A('gf')], stream='src-' + kind) for kind, spec in srcs]
+        prefetch_src(self, [c.req for c in cases] + known_src_witnesses())
+        for c in cases:
+            yield c
+
+    # ---- real code
+    def impl(self, req):
+        kind, prog, inputs, flag = decode(req)
+        if kind == 'src':
+            return [A('oracle-only')]
+        try:
+            tp, _ = real_seq(prog) if kind == 'seq' else real_dedup(prog)
+        except fir.Unsupported as e:
+            return [A('unsupported'), str(e.kind)]
+        except TransformError as e:
+            return [A('transform-error'), str(e)[:80]]
+        return [A('result'), norm_prog(tp)]
+
+    def canon_model(self, resp):
+        if h(resp) == 'result' and h(resp[1]) == 'program':
+            return [resp[0], norm_prog(resp[1])]
+        return resp
+
+    # ---- direct oracle
+    def oracle(self, req):
+        kind, prog, inputs, flag = decode(req)
+        if kind == 'src':
+            return self.oracle_src(prog, inputs)
+        if kind == 'dedup' and not dedup_precondition_ok(prog):
+            return []           # documented restriction violated: nothing is claimed
+        cs = []
+        if kind == 'seq':
+            if known_seq_rank(prog):
+                cs.append(K_SEQ_RANK)
+        else:
+            if known_dedup_multi(prog):
+                cs.append(K_DD_MULTI)
+            if known_dedup_intent(prog):
+                cs.append(K_DD_INTENT)
+            elif dedup_alias_written(prog):
+                return []       # aliasing precondition violated (original not conforming)
+        try:
+            tp, text = real_seq(prog) if kind == 'seq' else real_dedup(prog)
+        except (TransformError, fir.Unsupported) as e:
+            return [Failure(f'{kind}: transformation or export of its result raised {type(e).__name__}: {str(e)[:120]}',
+                            cs[0] if cs else None)]
+        if kind == 'seq' and known_seq_short(tp, inputs):
+            cs.append(K_SEQ_SHORT)
+        if kind == 'dedup' and known_dedup_left(tp):
+            cs.insert(1 if K_DD_MULTI in cs else 0, K_DD_LEFT)
+        cls = cs[0] if cs else None
+        runs = []
+        for inp in inputs:
+            a = fir.interp(prog, inp)
+            if a[0] != 'ok':
+                continue
+            b = sec_interp(tp, inp)
+            d = fir.compare_results(a, b, undef_wild=False)
+            if d:
+                return [Failure(f'{kind}: transformed program behaves differently (interpreter): {d}', cls)]
+            runs.append(inp)
+        if flag == 'gf' and runs:
+            err = fir.gfortran_syntax_check(text)
+            if err:
+                return [Failure(f'{kind}: gfortran rejects the transformed source printed by fgen: {err[:160]}', cls)]
+            items = []
+            for inp in runs:
+                st = {}
+                fir.interp(prog, inp, stats=st)
+                if fir.exact_in_hardware(st):
+                    items += [(prog, inp), (tp, inp)]
+            res = fir.run_gfortran(items) if items else []
+            for k in range(0, len(res), 2):
+                if res[k][0] != 'ok':
+                    continue
+                d = fir.compare_results(res[k], res[k + 1])
+                if d:
+                    return [Failure(f'{kind}: transformed program behaves differently (gfortran): {d}', cls)]
+        return []
+
+    def oracle_src(self, kind, spec):
+        """results are a deterministic function of (kind, spec); `prefetch_src` may have started the computation already"""
+        key = kind + ' ' + dumps(spec)
+        fut = _SRC_FUT.pop(key, None)
+        if fut is not None:
+            return list(fut.result())
+        return self._oracle_src(kind, spec)
+
+    def _oracle_src(self, kind, spec):
+        if kind not in SRC_KINDS:
+            raise ValueError('unknown source kind')
+        cs = SRC_KINDS[kind][1](spec)
+        cls = cs[0] if cs else None
+        try:
+            mod, drv, text = real_src(kind, spec)
+        except TransformError as e:
+            return [Failure(f'{kind}: transformation raised {e}', cls)]
+        a = gf_run(mod + drv)
+        if a[0] != 'ok':
+            return [Failure(f'{kind}: generated original does not build/run: {a}', error=True)]
+        b = gf_run(text + '\n' + drv)
+        if b[0] == 'compile-error':
+            return [Failure(f'{kind}: gfortran rejects the transformed call tree: {b[1]}', cls)]
+        if b[0] != 'ok':
+            return [Failure(f'{kind}: transformed call tree fails at run time ({b[1]}); original prints {a[1][:60]}', cls)]
+        if a[1] != b[1]:
+            return [Failure(f'{kind}: transformed call tree prints {b[1][:80]} instead of {a[1][:80]}', cls)]
+        return []
+
+
+PROP = C34()
+READY = True
